@@ -83,7 +83,9 @@ PROPS["C01"] = {
             "(node numbers abstracted) + world shapes.",
     "assumptions": ["wasmparser::Validator(WasmFeatures::all()) 0.247 is the reference validator (the only one available offline); "
                     "independence is of invocation, not implementation",
-                    "wit-parser/wit-component 0.247 produce valid components for the generated worlds (checked: ComponentEncoder validates)"],
+                    "wit-parser/wit-component 0.247 produce valid components for the generated worlds (checked: ComponentEncoder validates)",
+                    "the reference validator's hard resource limits are outside the property: a chain of 1000 interfaces each `use`-ing the previous one encodes to 18 MB "
+                    "and is refused with 'effective type size exceeds the limit of 1000000' (observed by hand); generated compositions stay far below these limits"],
     "technique": "runtime monitor: reference-validator oracle on every encode output of generated compositions (4 option combinations)",
     "level_text": "Every encode() result of the workload is observed: Ok bytes are validated by the harness itself, ValidationFailure "
                   "and panics are refuting events, validate=true/false must give identical bytes. Reaches what fixtures cannot by "
@@ -167,7 +169,7 @@ PROPS["C12"] = {
             "bidi/deprecated/control code point inserted at a random position (also inside comments and strings), unterminated "
             "string/comment, stray characters, invalid semver after `@`, empty record/variant/enum/flags/tuple bodies. "
             "Non-trivial: document with >= 3 statement/declaration kinds; distinct by token text with digits removed. Separators between tokens include block comments generated from pieces that put `/`, `*` and delimiters next to each other (`/*/`, `**/`, nesting), validated by a reference nesting scanner, and their unterminated variants as negatives; forbidden code points are drawn from the whole classes (C0 controls other than tab/LF/CR, DEL, C1 controls U+0080..U+009F, bidirectional overrides and isolates, deprecated code points). Generated texts may end inside trivia: a `//` comment running to the end of the input without a newline, a block comment, or bare whitespace.",
-    "assumptions": ["reference `id` admits upper-case words (WIT acronyms) as the implementation's token rule does",
+    "assumptions": ["the parser's nesting limit (64 levels of types / expressions, fix cadc1f0) is an implementation limit outside the EBNF; generated documents nest at most 3 levels, so the recogniser does not model it", "reference `id` admits upper-case words (WIT acronyms) as the implementation's token rule does",
                     "an argument list may be empty and `...` may stand at any argument position syntactically ('must be last' is an evaluation rule, C04)",
                     "`results ::= type` only: the EBNF's named result list was removed from WIT and is documentation staleness, not a defect",
                     "`borrow<id>`: a borrow names a resource",
@@ -488,14 +490,17 @@ PROPS["C14"] = {
     "floors": {"any": {"parse:ok": 200, "parse:error": 2000, "from_bytes:ok": 100, "from_bytes:error": 1000,
                        "input:random-text": 100, "input:generated-doc-mutant": 1000, "input:truncation": 1000,
                        "input:fixture-mutant": 100, "input:package-mutant": 1000, "input:random-bytes": 100,
-                       "input:shaped-wat-mutant": 100, "input:document-package-pairing": 100, "shaped-wat": 10}},
+                       "input:shaped-wat-mutant": 100, "input:document-package-pairing": 100, "shaped-wat": 10,
+                       "chain:alias-chain": 3, "chain:list-chain": 3, "chain:use-chain": 3, "chain:include-chain": 3, "chain:nesting-inside-the-limit": 3}},
     "lanes": {"thorough": [{"name": "asan", "cases": 1500, "workers": 16, "budget_s": 900},
                            {"name": "miri", "cases": 2, "workers": 12, "budget_s": 1200}]},
     "rule": "Texts: random token/unicode soup; grammar-generated documents with 1-3 character-level edits (delete, insert "
             "punctuation / multi-byte / bidi / NUL characters, replace, swap, duplicate a chunk, truncate) and truncation at every "
             "character boundary of small documents; character-level mutants of the repository's fixture documents; 8 kinds of "
             "deep nesting (parentheses, list<>, tuple<>, option<result<>>, nested `new`, nested block comments, access chains) at "
-            "depths 10..100000 capped at 1 MiB of source. Packages: generated components and 6 byte-level mutants each "
+            "depths 10..100000 capped at 1 MiB of source (parser only); 5 kinds of long definition chains (type aliases, list<> of the "
+            "previous type, interfaces `use`-ing the previous interface, worlds including the previous world, nesting just inside the "
+            "parser's 64-level limit) of 10..3000 definitions through parse, resolve and encode. Packages: generated components and 6 byte-level mutants each "
             "(truncate, bit flip, byte replace, delete, insert, splice, extreme byte), random bytes with and without a "
             "component/module header, 14 hand-shaped WAT components/modules (core module types with tables/memories/globals/tags, "
             "memory64, shared, GC and shared heap types, value/instance/component imports, resources, async/stream/future) and "
@@ -506,7 +511,10 @@ PROPS["C14"] = {
             "char boundary in a tree or diagnostic, and a diagnostic that does not render are refuting events. Non-trivial: "
             "every random case (distinct case seeds).",
     "assumptions": ["'never loops forever' is decided as 'finished within 45 s, twice' for inputs <= 1 MiB (bounded progress, not termination)",
-                    "workers run with the default 8 MiB main-thread stack; stack exhaustion is reported with the nesting kind and depth"],
+                    "workers run with the default 8 MiB main-thread stack; stack exhaustion is reported with the nesting kind and depth",
+                    "superlinear cost is not a refuting event as long as the call returns: a chain of 20000 interfaces each `use`-ing the previous one (717 KB of source) "
+                    "takes ~5 min and ~8 GB to resolve and encode on this machine and then returns an error (observed once by hand, not part of the workload); "
+                    "definition chains in the workload stop at 3000"],
     "technique": "runtime monitor: supervised execution (panic capture, crash/hang attribution) + span and rendering oracle over hostile inputs; sanitizer lanes in the thorough tier",
     "level_text": "Robustness is decided by executing the four entry points on tens of thousands of malformed inputs under a supervisor "
                   "that sees panics, aborts, signals and hangs, with every returned location checked against the source.",
